@@ -72,7 +72,7 @@ func (g *Gen) stmt(o *out, sc *Scope, depth int) {
 		g.stat("y")
 		o.line("y(%d)", g.yk)
 	}
-	k := g.n(34)
+	k := g.n(35)
 	if depth <= 0 && k >= 8 && k <= 17 {
 		k = g.n(8)
 	}
@@ -150,6 +150,26 @@ func (g *Gen) stmt(o *out, sc *Scope, depth int) {
 		g.argOrderStmt(o, sc)
 	case 28:
 		g.divStmt(o, sc)
+	case 29:
+		// functions whose named results are shadowed at their return statements
+		a := g.expr(g.U.TI, sc, 1)
+		switch g.n(3) {
+		case 0:
+			o.line("if r, ok := nr0(%s); ok || r != 0 {", a)
+			o.line("\temit(\"nr\", itoa(int(r))+btoa(ok))")
+			o.line("}")
+		case 1:
+			o.line("{")
+			o.line("\tr, ok := nr1(%s)", a)
+			o.line("\temit(\"nr\", itoa(int(r))+btoa(ok))")
+			o.line("}")
+		default:
+			o.line("{")
+			o.line("\tx, y := nr2(%s)", a)
+			o.line("\temit(\"nr\", itoa(int(x))+\",\"+itoa(int(y)))")
+			o.line("}")
+		}
+		g.stat("named-result-shadow")
 	default:
 		g.assign(o, sc)
 	}
@@ -568,7 +588,46 @@ func (g *Gen) rangeStmt(o *out, sc *Scope, depth int) {
 func (g *Gen) closureStmt(o *out, sc *Scope, depth int) {
 	t := g.scalarOf([]Kind{KInt, KString, KInt}[g.n(3)])
 	name := g.newName(sc)
-	switch g.n(3) {
+	switch g.n(4) {
+	case 3:
+		// function literal called on the spot (also deferred / with arguments) that writes
+		// captured variables, possibly after it was suspended: the enclosing function sees the
+		// writes
+		ps := g.paths(t, sc, true)
+		if len(ps) == 0 {
+			o.line("%s := %s", name, g.expr(t, sc, 1))
+			g.declare(sc, name, t)
+			return
+		}
+		p := ps[g.n(len(ps))]
+		o.line("%s := %s", name, g.expr(t, sc, 1))
+		g.declare(sc, name, t)
+		form := g.n(3)
+		if form == 1 && (g.Opt.NoDefer || sc.Loop > 0) {
+			form = 0
+		}
+		head := []string{"func() {", "defer func() {", "func(arg " + t.Name + ") {"}[form]
+		o.line("%s", head)
+		o.ind++
+		if g.Opt.Yield {
+			g.yk++
+			o.line("y(%d)", g.yk)
+		}
+		if form == 2 {
+			o.line("%s = arg", p)
+		} else {
+			o.line("%s = %s", p, g.expr(t, sc, 1))
+		}
+		if g.Opt.Yield {
+			g.yk++
+			o.line("y(%d)", g.yk)
+		}
+		o.line("%s = %s", name, p)
+		o.ind--
+		o.line("%s", []string{"}()", "}()", "}(" + g.expr(t, sc, 1) + ")"}[form])
+		o.line("emit(\"iife\", %s+\"|\"+%s)", g.showOf(t, p), g.showOf(t, name))
+		g.stat("closure-immediate")
+		return
 	case 0:
 		// closure with a parameter, called twice
 		c := sc.child()
@@ -970,8 +1029,30 @@ func (g *Gen) redeclareStmt(o *out, sc *Scope) {
 	a, p, nb := g.newName(sc), g.newName(sc), g.newName(sc)
 	o.line("%s := %s", a, g.composite(t, sc, 1))
 	o.line("%s := &%s", p, a)
-	o.line("%s, %s := %s, %s", a, nb, g.composite(t, sc, 1), g.expr(g.U.TI, sc, 1))
-	o.line("emit(\"rd\", %s+\"|\"+%s+\"|\"+itoa(int(%s))+btoa(%s == &%s))", g.showOf(t, "*"+p), g.showOf(t, a), nb, p, a)
+	switch g.n(5) {
+	case 0:
+		o.line("%s, %s := %s, %s", a, nb, g.composite(t, sc, 1), g.expr(g.U.TI, sc, 1))
+		o.line("emit(\"rd\", %s+\"|\"+%s+\"|\"+itoa(int(%s))+btoa(%s == &%s))", g.showOf(t, "*"+p), g.showOf(t, a), nb, p, a)
+	case 1:
+		// the right-hand side is one tuple: map lookup
+		o.line("%s, %s := map[string]%s{\"k\": %s}[\"k\"]", a, nb, t.Name, g.composite(t, sc, 1))
+		o.line("emit(\"rd\", %s+\"|\"+%s+\"|\"+btoa(%s)+btoa(%s == &%s))", g.showOf(t, "*"+p), g.showOf(t, a), nb, p, a)
+	case 2:
+		// type assertion
+		o.line("%s, %s := interface{}(%s).(%s)", a, nb, g.composite(t, sc, 1), t.Name)
+		o.line("emit(\"rd\", %s+\"|\"+%s+\"|\"+btoa(%s)+btoa(%s == &%s))", g.showOf(t, "*"+p), g.showOf(t, a), nb, p, a)
+	case 3:
+		// function call
+		o.line("%s, %s := func() (%s, bool) { return %s, true }()", a, nb, t.Name, g.composite(t, sc, 1))
+		o.line("emit(\"rd\", %s+\"|\"+%s+\"|\"+btoa(%s)+btoa(%s == &%s))", g.showOf(t, "*"+p), g.showOf(t, a), nb, p, a)
+	default:
+		// channel receive
+		ch := g.newName(sc)
+		o.line("%s := make(chan %s, 1)", ch, t.Name)
+		o.line("%s <- %s", ch, g.composite(t, sc, 1))
+		o.line("%s, %s := <-%s", a, nb, ch)
+		o.line("emit(\"rd\", %s+\"|\"+%s+\"|\"+btoa(%s)+btoa(%s == &%s))", g.showOf(t, "*"+p), g.showOf(t, a), nb, p, a)
+	}
 	g.stat("redeclare")
 }
 
